@@ -175,6 +175,9 @@ def work_dense(task, p):
             continue
         counts = [tomo.dense_counts(c, init, n, shots=(None, 4096, 1000 + 37 * ci)[i % 3]) for ci, c in enumerate(circs)]
         f = FullStateTomographyFitter(tomo.FakeResult(counts), circs)
+        if n <= 4:
+            call(f.expectation_values)      # one fitter object asked more than once
+            call(f.density_matrix, False)
         ok, dm = call(f.density_matrix)
         if not ok:
             p.violate(key + "fitter-raises", "density_matrix raised %s: %s" % (exc_name(dm), str(dm)[:200]), case)
